@@ -425,7 +425,7 @@ _EXTRA_FLOORS = {
     "C08": {"form_same_operand": 1000, "form_comparison_compound": 100000},
     "C09": {"chain_first_steps": 550, "nested_bound_cases": 650, "long-sequence-cases": 120},
     "C10": {"law:wide-union": 180},
-    "C11": {"seqdef-cases": 2700, "typed-filter-judged": 1400, "seqdef-nested-cases": 25},
+    "C11": {"seqdef-cases": 4400, "typed-filter-judged": 1400, "seqdef-nested-cases": 25},
     "C12": {"order-family-cases": 5000, "match-coverage:accepted": 25, "loop-value-cases": 100},
     "C14": {"twin-grouping-cases": 3000, "float-chain-discriminating-cases": 1100},
     "C15": {"deep-types": 90, "field-name-types": 1000},
